@@ -96,9 +96,13 @@ pub fn corr(seed: u64, n: u64) {
             3 | 4 => {
                 let c = gen_curve(&mut rng);
                 let l = gen_line_for(&mut rng, &c);
+                let _ = flo_curves::bezier::verif_roots::take();
                 let hits = curve_intersects_ray(&c, &l);
+                // hook H3: the polynomial and the raw roots the external solver returned inside that call
+                let (poly, raw) = flo_curves::bezier::verif_roots::take().unwrap_or(((f64::NAN, f64::NAN, f64::NAN, f64::NAN), vec![]));
                 let (cp1, cp2) = c.control_points();
-                let mut line = format!("C04 cir R {} {} {} {} {} | {}", hx2(c.start_point()), hx2(cp1), hx2(cp2), hx2(c.end_point()), hxl(&l), hits.len());
+                let mut line = format!("C04 cir R {} {} {} {} {} #{} {} {} | {}", hx2(c.start_point()), hx2(cp1), hx2(cp2), hx2(c.end_point()), hxl(&l), raw.len(), hxs(&raw), hxs(&[poly.0, poly.1, poly.2, poly.3]), hits.len());
+                stats.count(&format!("cir.solver_roots{}", raw.len()));
                 for (t, sp, p) in hits.iter() { line += &format!(" {} {} {}", hx(*t), hx(*sp), hx2(*p)); }
                 stats.case(&line, !hits.is_empty());
                 stats.count(&format!("cir.hits{}", hits.len()));
